@@ -54,6 +54,8 @@ type Model struct {
 	Regions map[uint64]*Region
 	NumKeys int
 	nextID  uint64
+	// StoreVersion is the TiKV version new stores report (default 5.0.0; below 5.0 PD does not use joint consensus / demotion)
+	StoreVersion string
 	// DownSeconds, when set, tells for how long a store has been unreachable (reported in down-peer statistics)
 	DownSeconds func(store uint64) uint64
 	// History of every heartbeat ever built (for stale / duplicate re-sends)
@@ -86,7 +88,11 @@ func (m *Model) AllocID() uint64 { m.nextID++; return m.nextID }
 
 // AddStore adds a store.
 func (m *Model) AddStore(id uint64, labels map[string]string) *Store {
-	s := &Store{ID: id, Address: fmt.Sprintf("tikv%d:20160", id), Labels: labels, Up: true, Capacity: 1 << 40, Used: 1 << 30, Version: "5.0.0"}
+	ver := m.StoreVersion
+	if ver == "" {
+		ver = "5.0.0"
+	}
+	s := &Store{ID: id, Address: fmt.Sprintf("tikv%d:20160", id), Labels: labels, Up: true, Capacity: 1 << 40, Used: 1 << 30, Version: ver}
 	m.Stores[id] = s
 	return s
 }
